@@ -409,7 +409,7 @@ func checkC08(c *Ctx) {
 		}
 	}
 	c08pipeModel(c, "C08.R2", "", "")
-	c08conic(c)
+	c08coneModel(c, "C08.R5")
 	c.Floor("C08.R5", 3)
 	c.Floor("C08.R1", 9)
 	c.Floor("C08.R2", 4)
